@@ -31,6 +31,9 @@ structure Facts where
   -- C05: allocations sized by a wire length / count come after the size check of their case clause
   allocAfterSizeCheck : Bool
   allocSitesSized : Nat
+  -- C06: allocations carry the size / alignment / GC type of one type node; pointerful kinds are typed
+  typedAllocOK : Bool
+  typedAllocSites : Nat
   -- C08 / C07
   createLocksRechecksBuildsPublishes : Bool
   getIsReadOnly : Bool
@@ -75,6 +78,10 @@ def bufferContract (F : Facts) : Bool := F.encodeCapsAtLen && F.encodeChecksLen
 
 /-- C05: every wire-sized allocation of the decoder is dominated by its size check -/
 def allocationDiscipline (F : Facts) : Bool := F.allocAfterSizeCheck && F.allocSitesSized == 6
+
+/-- C06: memory that can hold pointers is allocated typed (scanned by the GC), with the element's size
+    and alignment; only string / binary bytes come from the pointer-free span -/
+def typedAllocation (F : Facts) : Bool := F.typedAllocOK && F.typedAllocSites == 6
 
 def steadyStateAllocFree (F : Facts) : Bool := F.escapeAnalysisRan && F.hotPathHeapSites == 0
 end Facts
